@@ -13,6 +13,106 @@ PY = "/venv/bin/python"
 
 # id -> (technique, level text, level note, design ref)
 TABLE = {
+    "C01": (
+        "exhaustive table enumeration + Hypothesis-generated user force-field file pairs and structures vs independent DAT/.names model",
+        "The complete (force field x residue state x atom) lookup table of all six built-in force fields is enumerated "
+        "against an independent re-implementation of the documented DAT + .names resolution; generated user .DAT/.names "
+        "pairs with construction-known truth; generated structures end-to-end: every written atom's charge/radius must be "
+        "the model's value for its final state, atoms without an entry must be omitted and reported.",
+        "Trusts the data files as the definition of the parameters (read independently with ElementTree/str.split) and "
+        "the documented .names semantics.",
+        "DESIGN.md section 5, C01",
+    ),
+    "C02": (
+        "property-based testing: generated sequences/structures, formal-charge oracle from explicit chemistry rules",
+        "Generated multi-chain / cyclic / nucleic inputs over every residue x position x force field; residue net charges "
+        "compared with chemistry-derived formal charges, termini counted per constructed chain end.",
+        "Trusts the case descriptor (what the generator built) and the chemistry table in vf/topo.py.",
+        "DESIGN.md section 5, C02",
+    ),
+    "C03": (
+        "property-based testing: generated structures x option combinations, atom-conservation oracle",
+        "Every input heavy atom is tracked by key into the final model; model = written U unassigned; written atom sets "
+        "compared with the independently composed topology of the final state.",
+        "Trusts the XML templates as definition of atom sets (read independently) and captured warning records.",
+        "DESIGN.md section 5, C03",
+    ),
+    "C04": (
+        "property-based testing: generated contact/clash structures, rigid-fragment superposition oracle",
+        "Contact-mode and real-window structures that provoke debumping and flips; input atoms matched by key; backbone "
+        "fixed, every rigid side-chain fragment must superpose with RMSD <= 1e-6 A, det=+1.",
+        "Trusts numpy SVD superposition and the template bond graph for fragment definition.",
+        "DESIGN.md section 5, C04",
+    ),
+    "C05": (
+        "property-based testing: generated structures with missing atoms, template bond length/angle oracle",
+        "Added atoms (hydrogens, rebuilt heavy atoms, water hydrogens) compared with template bond lengths/angles of the "
+        "final state; attachment checked after debump/optimisation.",
+        "Trusts template geometry in the XML files; tolerances calibrated on ideal-geometry inputs.",
+        "DESIGN.md section 5, C05",
+    ),
+    "C06": (
+        "exhaustive decision table (group x position x force field x pH side) in generated contexts + random pH/pKa",
+        "pKa source replaced by harness-supplied rows; final states compared with pH<pKa gated by the support matrix "
+        "derived from the force-field model; monotone total charge along pH sweeps.",
+        "Trusts the force-field model's support matrix; real PROPKA only sampled.",
+        "DESIGN.md section 5, C06",
+    ),
+    "C07": (
+        "property-based testing / structured fuzzing of PDB text layout vs independent fixed-column reader",
+        "Generated layout mutations (blank lines, CRLF, unknown records, TER/END/MODEL bookkeeping, alt-locs, icodes, "
+        "short lines) over generated structures; ingested atoms compared as multisets with an independent column reader.",
+        "Trusts the wwPDB column layout as implemented in vf/colfmt.py.",
+        "DESIGN.md section 5, C07",
+    ),
+    "C08": (
+        "property-based round-trip testing of PQR serialisation (fixed columns, whitespace tokens, pdb2pqr's own reader)",
+        "Generated atom field tuples at width boundaries written through the real writer and read back by independent "
+        "column/token readers and io.read_pqr.",
+        "Trusts the PQR/PDB column conventions; overflow of fixed columns recorded as known findings.",
+        "DESIGN.md section 5, C08",
+    ),
+    "C09": (
+        "metamorphic property-based testing: option subsets over generated structures",
+        "Base run vs optioned run: atom order, coordinate/charge/radius substrings byte-identical; drop-water equals "
+        "deleting waters; neutral termini shift total charge by the constructed count.",
+        "Trusts the descriptor for which termini exist.",
+        "DESIGN.md section 5, C09",
+    ),
+    "C10": (
+        "differential property-based testing: one descriptor written as PDB and as mmCIF",
+        "Independent mmCIF writer; results of both encodings compared atom by atom; both pdbx missing-value conventions.",
+        "Only the installed pdbx version plus an emulated older convention are covered.",
+        "DESIGN.md section 5, C10",
+    ),
+    "C11": (
+        "stateful property-based testing (Hypothesis rule-based machine) over run histories + fresh-process references",
+        "Histories of successful and failing runs in one process; every run's bytes compared with references produced in "
+        "fresh processes under several hash seeds.",
+        "Samples hash seeds and histories; single-threaded code so schedules are not a dimension.",
+        "DESIGN.md section 5, C11",
+    ),
+    "C12": (
+        "property-based testing + generated fault injection at every processing stage",
+        "Success side: complete generated residues x covering force fields must run; failure side: malformed inputs and "
+        "injected stage faults must raise and leave the output path untouched.",
+        "Stage list derived from main_driver/non_trivial; secondary outputs out of scope.",
+        "DESIGN.md section 5, C12",
+    ),
+    "C13": (
+        "property-based testing: generated cysteine pair placements, distance oracle, permutation metamorphic relation",
+        "S-S distances around the 2.5 A limit, same/different chains, both file orders; symmetric CYX state, partner "
+        "pointers, thiol hydrogen presence; invariance under chain/file order permutation.",
+        "Distances within 1e-6 of the limit excluded.",
+        "DESIGN.md section 5, C13",
+    ),
+    "C14": (
+        "stateful property-based testing (Hypothesis rule-based machine) of the cell map vs brute-force model",
+        "Histories of add/remove/move on Cells(2|5) with boundary-seeking coordinates; after every step an all-pairs "
+        "brute-force comparison; plus pipeline-level wrapping of neighbour queries during real runs.",
+        "Cutoffs <= cell size as in every caller.",
+        "DESIGN.md section 5, C14",
+    ),
     "C15": (
         "property-based testing (Hypothesis): generated rigid motions / torsion requests vs numpy oracle",
         "Generated search over point sets, rotations, translations, offsets, angles and real template "
@@ -20,6 +120,27 @@ TABLE = {
         "the tolerances of the statement.  Exploration, not proof: evidence is bounded by the generator.",
         "Trusts numpy linear algebra and the harness' construction of non-degenerate point sets.",
         "DESIGN.md section 5, C15",
+    ),
+    "C16": (
+        "property-based testing: MOL2 fragment grammar with construction-known formal charges; permutation/renaming metamorphic relations",
+        "Generated molecules: charge conservation, name independence, order dependence only within Weisfeiler-Lehman "
+        "classes, radii from the documented tables; complexes: ligand parameters only on ligand atoms, each once.",
+        "Trusts the fragment grammar's valence bookkeeping for formal charges.",
+        "DESIGN.md section 5, C16",
+    ),
+    "C17": (
+        "property-based testing: generated atom clouds / sizing parameters vs bounding-box oracle; metamorphic header/layout invariance",
+        "Generated clouds written by pdb2pqr's own writer in both layouts with injected header/comment lines; enclosure, "
+        "legality (32k+1 >= 33), fine<=coarse, memory estimate, printed report, and the --apbs-input path end-to-end.",
+        "Printed values define the spheres; cfac >= 1, fadd >= 0.",
+        "DESIGN.md section 5, C17",
+    ),
+    "C18": (
+        "property-based round-trip testing: generated OpenDX grids -> cube, independent cube reader",
+        "Generated grids (any shape incl. counts not divisible by 3/6), values over 40 orders of magnitude, atom lists; "
+        "cube read back by an independent reader and compared value by value in order.",
+        "Trusts the cube/OpenDX format descriptions.",
+        "DESIGN.md section 5, C18",
     ),
 }
 
